@@ -1,4 +1,5 @@
 import DicomModel.Model.Charset
+import DicomModel.Lemmas.Utf8
 import DicomModel.Props.C16
 /-
 C10 — Text is encoded and decoded faithfully in every supported character set.
@@ -15,9 +16,10 @@ C10 — Text is encoded and decoded faithfully in every supported character set.
     back unchanged (up to the even-length padding) GIVEN, for the sets in force, `CodecRT`
     (decode ∘ encode = id), `NoSep` (no backslash byte in the encoding of backslash-free text) and
     `PadOK` (a trailing blank decodes to a blank). The three hypotheses are *proved* for the
-    single-byte sets; for the multi-byte sets they are assumptions about the `encoding` crate, tested
-    by the correspondence run — and FALSE in places (see findings C10-*: byte 0x5C inside multi-byte
-    characters, ISO 2022 state at the end of a value, U+00A5/U+203E, GB18030 U+E5E5).
+    single-byte sets and for UTF-8 (`known_hypotheses`: 11 of the 16 sets); for the other multi-byte
+    sets they are assumptions about the `encoding` crate, tested by the correspondence run — and
+    FALSE in places (see findings C10-*: byte 0x5C inside multi-byte characters, ISO 2022 state at
+    the end of a value, U+00A5/U+203E, ESC, GB18030 U+E5E5).
     VRs restricted to the default repertoire are written with the default codec whatever the
     character set in force (`default_vrs_unaffected`).
 -/
@@ -281,8 +283,8 @@ example : (Gen.pageOfTerm.find? fun e => eqStr e.1 Cs.IsoIr109.term).map (fun e 
 def CodecRT (c : Codec) : Prop := ∀ s bs, c.encode s = some bs → c.decode bs = s
 /-- backslash-free text has backslash-free bytes -/
 def NoSep (c : Codec) : Prop := ∀ s bs, c.encode s = some bs → 92 ∉ s → 92 ∉ bs
-/-- a trailing padding blank decodes to a blank, and the empty string is encoded as nothing -/
-def PadOK (c : Codec) : Prop := (∀ bs, c.decode (bs ++ [32]) = c.decode bs ++ [32])
+/-- a padding blank after an encoded text decodes to a blank after that text -/
+def PadOK (c : Codec) : Prop := ∀ s bs, c.encode s = some bs → c.decode (bs ++ [32]) = c.decode bs ++ [32]
 /-- ASCII text is encoded and decoded as itself -/
 def AsciiTransparent (c : Codec) : Prop :=
   ∀ s : Str, (∀ x ∈ s, x < 128) → c.encode s = some s ∧ c.decode s = s
@@ -313,7 +315,7 @@ theorem page_noSep {p : Page} (hg : p.Good) (ha : p.Ascii) : NoSep (pageCodec p)
         · exact hrest e
 
 theorem page_padOK {p : Page} (ha : p.Ascii) : PadOK (pageCodec p) := by
-  intro bs
+  intro _ bs _
   simp only [pageCodec, Page.decode_append, Page.decode, Page.decodeByte, ha.dec (by decide : 32 < 128)]
   rfl
 
@@ -336,6 +338,47 @@ theorem singlebyte_hypotheses (ext : Cs → Codec) (cs : Cs) (p : Page) (h : pag
   have : codecOf ext cs = pageCodec p := by simp [codecOf, known, h]
   rw [this]
   exact ⟨page_codecRT hg, page_noSep hg ha, page_padOK ha, page_asciiTransparent ha⟩
+
+/-- UTF-8 (ISO_IR 192) satisfies the three hypotheses as well (`Lemmas/Utf8.lean`) -/
+theorem utf8_hypotheses : CodecRT utf8Codec ∧ NoSep utf8Codec ∧ PadOK utf8Codec := by
+  have hall : ∀ (s : Str) (bs : List Nat), utf8Codec.encode s = some bs →
+      (∀ n ∈ s, n < 0x110000) ∧ bs = utf8Enc s := by
+    intro s bs h
+    simp only [utf8Codec] at h
+    by_cases hv : s.all (· < 0x110000) = true
+    · simp only [hv, if_true, Option.some.injEq] at h
+      exact ⟨fun n hn => by simpa using List.all_eq_true.mp hv n hn, h.symm⟩
+    · simp [hv] at h
+  refine ⟨?_, ?_, ?_⟩
+  · intro s bs h
+    obtain ⟨hv, rfl⟩ := hall s bs h
+    exact utf8_rt s hv
+  · intro s bs h h92
+    obtain ⟨_, rfl⟩ := hall s bs h
+    exact utf8Enc_no92 s h92
+  · intro s bs h
+    obtain ⟨hv, rfl⟩ := hall s bs h
+    have h1 : utf8Enc s ++ [32] = utf8Enc (s ++ [32]) := by simp [utf8Enc, utf8EncodeNat]
+    show utf8Dec (utf8Enc s ++ [32]) = utf8Dec (utf8Enc s) ++ [32]
+    rw [h1, utf8_rt (s ++ [32]) (by intro n hn; rcases List.mem_append.mp hn with h | h; exact hv n h; simp at h; omega),
+      utf8_rt s hv]
+
+/-- the sets for which the hypotheses of the data set theorem are theorems: the 10 single-byte sets
+and ISO_IR 192 — in any environment -/
+theorem known_hypotheses (ext : Cs → Codec) (cs : Cs) (h : ∀ p : Known, known cs = p → p ≠ .ext) :
+    CodecRT (codecOf ext cs) ∧ NoSep (codecOf ext cs) ∧ PadOK (codecOf ext cs) := by
+  cases hk : known cs with
+  | page p =>
+    have hp : pageOf cs = some p := by
+      simp only [known] at hk
+      cases hq : pageOf cs with
+      | none => simp only [hq] at hk; split at hk <;> cases hk
+      | some q => simp only [hq, Known.page.injEq] at hk; rw [hk]
+    exact ⟨(singlebyte_hypotheses ext cs p hp).1, (singlebyte_hypotheses ext cs p hp).2.1, (singlebyte_hypotheses ext cs p hp).2.2.1⟩
+  | utf8 =>
+    have : codecOf ext cs = utf8Codec := by simp [codecOf, hk]
+    rw [this]; exact utf8_hypotheses
+  | ext => exact absurd rfl (h _ hk)
 
 /-! splitting the joined bytes gives the parts back -/
 
@@ -394,13 +437,49 @@ theorem appendLast_no92 : ∀ (parts : List (List Nat)) (x : Nat), x ≠ 92 → 
     · exact h p (by simp)
     · exact appendLast_no92 (b :: r) x hx (fun q hq => h q (by simp [hq])) p (by simpa using hp)
 
-theorem map_appendLast {c : Codec} (hpad : PadOK c) : ∀ (parts : List (List Nat)), parts ≠ [] →
-    (appendLast parts 32).map c.decode = appendLast (parts.map c.decode) 32
-  | [a], _ => by simp [appendLast, hpad a]
-  | a :: b :: r, _ => by
-    have ih := map_appendLast hpad (b :: r) (by simp)
-    simp only [appendLast, List.map_cons] at ih ⊢
-    rw [ih]
+theorem map_appendLast {c : Codec} (hrt : CodecRT c) (hpad : PadOK c) :
+    ∀ {vals : List Str} {parts : List (List Nat)}, mapM' c.encode vals = some parts → vals ≠ [] →
+    (appendLast parts 32).map c.decode = appendLast vals 32
+  | [], _, _, hne => absurd rfl hne
+  | [v], parts, h, _ => by
+    simp only [mapM'] at h
+    cases hv : c.encode v with
+    | none => simp [hv] at h
+    | some b =>
+      simp only [hv, Option.some.injEq] at h
+      subst h
+      simp [appendLast, hpad v b hv, hrt v b hv]
+  | v :: w :: vs, parts, h, _ => by
+    simp only [mapM'] at h
+    cases hv : c.encode v with
+    | none => simp [hv] at h
+    | some b =>
+      cases hr : mapM' c.encode (w :: vs) with
+      | none =>
+        simp only [mapM'] at hr
+        simp [hv, hr] at h
+      | some bs =>
+        have hr' := hr
+        simp only [mapM'] at hr'
+        simp only [hv, hr', Option.some.injEq] at h
+        subst h
+        have ih := map_appendLast hrt hpad hr (by simp)
+        cases bs with
+        | nil =>
+          cases hw : c.encode w <;> cases hvs : mapM' c.encode vs <;> simp [hw, hvs] at hr'
+        | cons q qs =>
+          cases qs with
+          | nil =>
+            simp only [appendLast, List.map_cons, List.map_nil] at ih ⊢
+            rw [hrt v b hv]
+            cases vs with
+            | nil => simpa [appendLast] using ih
+            | cons x xs =>
+              cases hw : c.encode w <;> cases hx : c.encode x <;> cases hxs : mapM' c.encode xs <;>
+                simp [mapM', hw, hx, hxs] at hr'
+          | cons q2 qs2 =>
+            simp only [appendLast, List.map_cons] at ih ⊢
+            rw [hrt v b hv, ih]
 
 theorem appendLast_ne_nil (parts : List (List Nat)) (x : Nat) : appendLast parts x ≠ [] := by
   cases parts with
@@ -468,7 +547,7 @@ theorem value_rt_strs {c : Codec} (hrt : CodecRT c) (hns : NoSep c) (hpad : PadO
   · simp only [padEven, hodd, if_true, hvr, if_false, padLast, decide_true]
     rw [← joinBs_appendLast parts 32 hpne,
       splitBs_join _ (appendLast_ne_nil parts 32) (appendLast_no92 parts 32 (by decide) hno),
-      map_appendLast hpad parts hpne, hdec]
+      map_appendLast hrt hpad henc hne]
   · simp only [padEven, hodd, if_false, padLast, decide_false, Bool.false_eq_true]
     rw [splitBs_join parts hpne hno, hdec]
 
@@ -479,7 +558,7 @@ theorem value_rt_str {c : Codec} (hrt : CodecRT c) (hpad : PadOK c) {s : Str} {v
     c.decode (padEven vr bs) = if bs.length % 2 = 1 then s ++ [32] else s := by
   by_cases hodd : bs.length % 2 = 1
   · simp only [padEven, hodd, if_true, hvr, if_false]
-    rw [hpad bs, hrt s bs henc]
+    rw [hpad s bs henc, hrt s bs henc]
   · simp only [padEven, hodd, if_false]
     exact hrt s bs henc
 
